@@ -475,4 +475,6 @@ pub fn run(e: &Engine) {
         render,
         check_case,
     );
+    e.fuzz_corpus("c05_batch");
+    e.fuzz_campaign("c05_batch", 300000);
 }
